@@ -41,12 +41,13 @@ class Sched(object):
     PROFILES = ("fifo", "per-server-fifo", "free")
 
     def __init__(self, seed=0, profile="per-server-fifo", eager_timers=0.0,
-                 choices=None, record=True, eager_horizon=2.0):
+                 choices=None, record=True, eager_horizon=2.0, net_latency=0.002):
         self.reactor = env.reactor
         self.rng = random.Random("sched/%s" % (seed,))
         self.profile = profile
         self.eager_timers = eager_timers   # probability of firing a future timer although other work exists
         self.eager_horizon = eager_horizon  # ... only timers due within this many virtual seconds
+        self.net_latency = net_latency      # virtual seconds consumed by delivering one wire message
         self.net = []
         self._seq = 0
         self.steps = 0
@@ -143,6 +144,10 @@ class Sched(object):
                 env.evq._turn()
             elif kind == "net":
                 self.net.remove(obj)
+                if self.net_latency:
+                    # a message takes time to travel: without this, code that re-sends a request on every
+                    # answer would exchange infinitely many messages in zero virtual time (Zeno artifact)
+                    self.reactor.advance(self.net_latency)
                 if self.record and len(self.msglog) < 20000:
                     self.msglog.append((round(self.reactor.seconds() - env.EPOCH, 3), label))
                 obj.deliver()
